@@ -39,13 +39,15 @@ def gen(rng, tier, shard, nshards):
         yield {'kind': 'hull', 'seed': rng.randrange(1 << 30)}
         if i % 2 == 0:
             yield {'kind': 'voxel', 'seed': rng.randrange(1 << 30)}
+        if i % 4 == 1:
+            yield {'kind': 'voxel-container', 'seed': rng.randrange(1 << 30)}
         if i % 3 == 0:
             yield {'kind': 'find_ctrlpts', 'seed': rng.randrange(1 << 30)}
 
 
 def check(case, ctx):
     ctx.nontriv(True)
-    return {'rays': check_rays, 'rays-generic': check_rays_generic, 'poly': check_poly, 'hull': check_hull, 'voxel': check_voxel,
+    return {'rays': check_rays, 'rays-generic': check_rays_generic, 'voxel-container': check_voxel_container, 'poly': check_poly, 'hull': check_hull, 'voxel': check_voxel,
             'find_ctrlpts': check_find}[case['kind']](case, ctx)
 
 
@@ -468,6 +470,39 @@ def check_voxel(case, ctx):
         ctx.ok('voxel-fill')
 
 
+def check_voxel_container(case, ctx):
+    """a container of two or three overlapping shapes: every shape gets its own grid over its own bounding box, and a voxel of that grid
+    is filled exactly when a sampled point of THAT shape lies in it"""
+    from geomdl import voxelize, multi
+    rng = random.Random(case['seed'])
+    pdim = rng.choice([2, 2, 3])
+    k = rng.randint(2, 3)
+    sds = [G.rand_shape(rng, pdim, dim=3, clamped_only=True, maxextra=2, maxdeg=3, pcls='uniform') for _ in range(k)]
+    els = [G.build(sd) for sd in sds]
+    ss = rng.randint(3, 5) if pdim == 2 else 3
+    for e in els:
+        e.sample_size = ss
+    cont = (multi.SurfaceContainer if pdim == 2 else multi.VolumeContainer)(*els)
+    gs = tuple(rng.randint(2, 5) for _ in range(3))
+    ctx.tag('vox:container')
+    grid, filled = voxelize.voxelize(cont, grid_size=gs)
+    # shape by shape (each judged on its own by the single-shape cases): the container result is their concatenation
+    exp_g, exp_f = [], []
+    for sd in sds:
+        e2 = G.build(sd)
+        e2.sample_size = ss
+        g_, f_ = voxelize.voxelize(e2, grid_size=gs)
+        exp_g += [[list(v[0]), list(v[1])] for v in g_]
+        exp_f += list(f_)
+    got_g = [[list(v[0]), list(v[1])] for v in grid]
+    ctx.check(got_g == exp_g, 'voxel/container-grid', 'voxelize(container of %d shapes): the grid is not the concatenation of the grids of its shapes (%d vs %d voxels)'
+              % (k, len(got_g), len(exp_g)), what='voxel-cover')
+    bad = [i_ for i_, (a_, b_) in enumerate(zip(filled, exp_f)) if bool(a_) != bool(b_)]
+    ctx.check(len(filled) == len(exp_f) and not bad, 'voxel/container-fill', 'voxelize(container of %d overlapping shapes): %d voxels are flagged differently from the '
+              'voxelisation of the shape they belong to (first: voxel %r) - a voxel is filled exactly when a point of ITS shape lies in it'
+              % (k, len(bad), bad[:1]), what='voxel-fill')
+
+
 def check_find(case, ctx):
     from geomdl import operations
     rng = random.Random(case['seed'])
@@ -476,7 +511,17 @@ def check_find(case, ctx):
     o = G.build(sd)
     S = G.defn_of(o)
     ctx.tag('find:normalized' if sd['normalize_kv'] else 'find:unnormalized')
-    for tags, prm in G.param_tuples(rng, o, 6):
+    plist = list(G.param_tuples(rng, o, 6))
+    # parameters one ulp either side of an interior knot: the control points are those of the span the parameter really lies in
+    for d_, (p_, U_) in enumerate(zip(S.p, G.kvs_of(o))):
+        inner = sorted(set(k for k in U_[p_ + 1:len(U_) - p_ - 1] if U_[p_] < k < U_[len(U_) - p_ - 1]))
+        for k in inner[:3]:
+            for nb in (math.nextafter(k, -math.inf), math.nextafter(k, math.inf)):
+                base_prm = list(plist[0][1])
+                base_prm[d_] = nb
+                plist.append((('knot-ulp',), tuple(base_prm)))
+                ctx.tag('find:knot-ulp')
+    for tags, prm in plist:
         act = S.active(prm)
         spans = S.spans(prm)
         bas = [ref.basis_span(p, U, sp, F(u)) for p, U, sp, u in zip(S.p, S.U, spans, prm)]
